@@ -465,7 +465,9 @@ META = {
         "followed by another object; family ill: path objects up to ill_len with one ill-formed construction operator inserted at every position "
         "after the first segment; family pages: for every path object of at most pages_len construction operators a 15-page document processed by one "
         "interpreter and one device in which pages end with that object neither painted nor ended by n (alone, or after a painted object), each followed by "
-        "a page painting one of 3 fixed programs, plus pages that invoke a form XObject ending the same way before painting. A case = one path object x end operator x CTM, or one gs history + probe; non-trivial = at least one shape expected. "
+        "a page painting one of 3 fixed programs, plus pages that invoke a form XObject ending the same way before painting; family leak: "
+        "a page (or form, or earlier document in the same process) defining ICCBased N=3 / N=4 colour spaces by name, then pages that do not define the name and "
+        "execute 'cs|CS /Name' followed by a one-operand sc|SC and the probe (3 definitions x 4 arrangements x 4 users). A case = one path object x end operator x CTM, or one gs history + probe; non-trivial = at least one shape expected. "
         "states = gs states + nodes of the path-construction tree, transitions = operator applications, traces = programs compared with the model."
     ),
     "bound": {k: str(v) for k, v in BOUNDS.items()},
@@ -654,6 +656,62 @@ def pages_check(ck, tail, st):
                      [gfx.fl(e) for e in exps], obss, "path abandoned at the end of a page / form shows up later: " + ",".join(sorted(bad)))
 
 
+# ------------------------------------------------------------------ family: named colour spaces do not leak
+def leak_check(st):
+    """A page's /ColorSpace names exist for that page only.  Later pages, forms' callers and later documents that do
+    not define a name must treat 'cs /Name' as undefined (no effect), so a following sc in the true current space works."""
+    n_docs = 0
+    users = []
+    for name in ("CS0", "CS4"):
+        for op, col in (("cs", "sc"), ("CS", "SC")):
+            users.append(((op, "/" + name), (col, Fr(3, 4))) + PROBE)
+    for defines in (("CS0",), ("CS4",), ("CS0", "CS4")):
+        for arrangement in ("next-page", "page-between", "form", "next-document"):
+            d = G.Doc()
+            icc3 = d.add(G.Stream({"N": 3}, b"\x00" * 8))
+            icc4 = d.add(G.Stream({"N": 4}, b"\x00" * 8))
+            spaces = {"CS0": [G.N("ICCBased"), icc3], "CS4": [G.N("ICCBased"), icc4]}
+            res1 = {"ColorSpace": {k: spaces[k] for k in defines}}
+            first = tuple(e for k in defines for e in (("cs", "/" + k), ("CS", "/" + k))) + (("re", 30, 10, -12, 20), ("f",))
+            form = d.add(G.Stream({"Type": G.N("XObject"), "Subtype": G.N("Form"), "BBox": [0, 0, 200, 200], "Resources": res1}, gfx.program(first)))
+            docs = []
+            if arrangement == "next-page":
+                docs.append([(first, res1, None)] + [(u, {}, u) for u in users])
+            elif arrangement == "page-between":
+                docs.append([(first, res1, None), (PROBE, {}, PROBE)] + [(u, {}, u) for u in users])
+            elif arrangement == "form":
+                docs.append([((("Do", "/Fm0"),) + u, {"XObject": {"Fm0": form}}, None) for u in users])
+            else:
+                docs.append([(first, res1, None)])
+                docs.append([(u, {}, u) for u in users])
+            for k, pages in enumerate(docs):
+                dd = d if k == 0 else G.Doc()
+                data = gfx.pages_doc([(gfx.program(evs), res) for evs, res, _ in pages], doc=dd)
+                out = gfx.run_pages(data)
+                n_docs += 1
+                st.traces += 1
+                for (evs, res, judged), (lt, exc) in zip(pages, out):
+                    if arrangement == "form":
+                        # the form paints its own rectangle first, then the page's probe shapes follow
+                        # colour-space selections inside the form do not survive it (q/Q around a form, ISO 8.10.1)
+                        exp = list(run_model(first).out) + list(run_model(tuple(e for e in evs if e[0] != "Do")).out)
+                    elif judged is None:
+                        continue
+                    else:
+                        exp = list(run_model(judged).out)
+                    obs = observe(lt) if exc is None else gfx.exc_sig(exc)
+                    bad = diff(exp, obs) if exc is None else ["exception"]
+                    st.case(None, nontrivial=True, outcome=h64(repr([(o["sc"], o["nc"]) for o in obs]) if exc is None else obs))
+                    if bad:
+                        sig = "C16/named-colour-space-leaks:" + ",".join(sorted(bad))
+                        st.violation(sig, {"family": "leak", "defines": list(defines), "arrangement": arrangement, "page": gfx.program(evs),
+                                           "pdf": data if st.viol_counts[sig] < st.MAX_VIOL_PER_SIG else b""},
+                                     gfx.fl(exp), obs, f"colour space name defined elsewhere ({arrangement}) is selectable: " + ",".join(sorted(bad)))
+    st.states += n_docs + 1
+    st.transitions += n_docs
+    st.add("leak_documents", n_docs)
+
+
 def tree_size(paths) -> Tuple[int, int]:
     """nodes / edges of the prefix tree of the enumerated construction sequences"""
     seen = set()
@@ -676,6 +734,7 @@ def shards(tier):
     out += path_jobs(tier)
     out.append(("ill",))
     out += [("pages", i) for i in range(PAGES_SHARDS)]
+    out.append(("leak",))
     return out
 
 
@@ -738,6 +797,10 @@ def run_shard(shard, tier, st):
         if batch:
             run_batch(ck, (("w", 2),), batch, st, "ill-formed construction operator")
         st.add("illformed_path_objects", n)
+    elif kind == "leak":
+        ck = Checker(st)
+        leak_check(st)
+        st.sample({"family": "leak", "page1_defines": "CS0 [/ICCBased N=3]", "page2": gfx.program((("cs", "/CS0"), ("sc", Fr(3, 4))) + PROBE)})
     elif kind == "pages":
         ck = Checker(st)
         tails = [p for i, p in enumerate(gen_paths(b["pages_len"], True)) if i % PAGES_SHARDS == shard[1]]
@@ -754,6 +817,13 @@ def run_shard(shard, tier, st):
 
 
 def replay(case):
+    if case.get("family") == "leak":
+        from mc.core import Stats
+
+        st = Stats()
+        leak_check(st)
+        return [{"signature": v["signature"], "expected": repr(v["expected"]), "observed": repr(v["observed"])}
+                for v in st.violations if v["signature"].startswith("C16/named-colour-space-leaks")][:1]
     if case.get("family") == "pages":
         from mc.core import Stats
 
